@@ -81,6 +81,15 @@ func selftest(args []string) int {
 	if b, err := os.ReadFile(filepath.Join(*verif, "known_findings.json")); err == nil {
 		_ = os.WriteFile(filepath.Join(scratch, "known_findings.json"), b, 0o644)
 	}
+	// hand-written tables the rules read from the verif directory
+	if specs, _ := filepath.Glob(filepath.Join(*verif, "spec", "*")); len(specs) > 0 {
+		_ = os.MkdirAll(filepath.Join(scratch, "spec"), 0o755)
+		for _, sf := range specs {
+			if b, err := os.ReadFile(sf); err == nil {
+				_ = os.WriteFile(filepath.Join(scratch, "spec", filepath.Base(sf)), b, 0o644)
+			}
+		}
+	}
 	bad, ran, skipped := 0, 0, 0
 	for _, f := range files {
 		b, err := os.ReadFile(f)
